@@ -6,6 +6,10 @@ props = [json.loads(l) for l in open(os.path.join(V, 'properties.jsonl'))]
 
 # id -> (level, engine, technique, level text, level note, design_ref)
 CHECKS = {
+ 'C18': ('model_checking', 'E2-seq', 'explicit-state BFS over operation histories of the real mutable file system (fresh instance + replay per state, exact de-duplication on model + implementation dump incl. inode allocator), POSIX tree reference model, worker subprocess with fatal-error capture',
+         'Every history up to depth 4 (thorough 6) over create / mkdir / write / truncate / rename (all directory x name pairs) / unlink / rmdir / lookup / forget with kernel-protocol lookup counts, names {a,b}: each transition is compared with the model (result and errno), and in each distinct state getattr, ReadDir (resume protocol, 3 buffer sizes), ReadFile, inode uniqueness and a Commit + download are checked.',
+         'Driven through fuseutil.FileSystem (no kernel); staging directory on tmpfs; committed entry names are compared after stripping the leading slash the mutable mount gives them; ENOSYS counts as declined when the state is unchanged.',
+         'DESIGN.md §3 C18'),
  'C17': ('exploration', 'E2-seq', 'exhaustive observation battery over all small trees through the real read-only file system operation interface (no kernel), tree model derived from the bundle entries',
          'All subsets of <=4 (quick 3) of 6 nested paths x rotated sizes {0,1,L+1,3L} x {streamed prefetch 0/1, pre-downloaded}: every lookup (each directory x each child and absent names), every getattr, opendir, ReadDir from every offset and with the kernel resume protocol at every buffer size, ReadFile at every offset x 4 lengths.',
          'Driven through fuseutil.FileSystem via a verif-tagged accessor, not through a kernel mount; L=64.',
